@@ -152,6 +152,12 @@ protected:
     dlclose(sandbox);
 #endif
     sandbox = nullptr;
+
+    RLBOX_ACQUIRE_UNIQUE_GUARD(lock, callback_mutex);
+    for (uint32_t i = 0; i < MAX_CALLBACKS; i++) {
+      callback_unique_keys[i] = nullptr;
+      callbacks[i] = nullptr;
+    }
   }
 
   template<typename T>
